@@ -356,10 +356,25 @@ def clause_e(ctx, P):
         ctx.ob("C16e.unique-filters-decoded", "decode_txt_unique", any(x[0] == "call" and name_matches(cn(x), "decode_txt") for x in walk(src)), du.loc(b),
                "retain runs on the result of decode_txt: %s" % show(src)[:80])
     # slice input: push guarded by keys.insert(lowercase(key))
-    impls = [f for f in P.lib_fns() if f.short.endswith("into_txt_properties") and any(method(cname(t)) == "to_lowercase" for _b, t in f.calls())]
+    def _lowers(f):
+        return any(method(cname(t)) == "to_lowercase" for _b, t in f.calls()) or \
+            any(method(cname(t)) == "to_lowercase" for c in P.closures_of.get(f.name, []) for _b, t in P.fns[c].calls())
+    impls = [f for f in P.lib_fns() if f.short.endswith("into_txt_properties") and not f.is_closure and _lowers(f)]
     ctx.require(len(impls) >= 1, "C16e.anchor", "slice IntoTxtProperties impl", "", "%d" % len(impls))
     for f in impls:
         tr = tracer(P, f)
+        rts = [(b, t) for b, t in f.calls() if method(cname(t)) == "retain"]
+        if rts:
+            # convert everything, then `retain(|p| keys.insert(lowercase(key)))`: the same filter as decode_txt_unique
+            okr = False
+            for c in P.closures_of.get(f.name, []):
+                for e in ret_exprs(P, P.fns[c]):
+                    if e[0] == "call" and name_matches(cn(e), "HashSet::insert") and is_lowercased(e[2][1]) and \
+                            any(x[0] == "call" and name_matches(cn(x), "TxtProperty::key") or x[0] == "field" and x[2] == "key" for x in walk(e[2][1])):
+                        okr = True
+            ctx.ob("C16e.first-wins-input", "%s|retain" % f.short[-40:], okr, f.loc(rts[0][0]),
+                   "retain keeps an element iff keys.insert(lowercase(key)) is true" if okr else "the retain predicate is not keys.insert(lowercase(key))")
+            continue
         pushes = [(b, t) for b, t in f.calls() if name_matches(cname(t), "Vec::push")]
         edges = guard_edges(P, f, lambda atom, outcome, b: atom[0] == "call" and name_matches(cn(atom), "HashSet::insert") and outcome is True and
                             is_lowercased(atom[2][1]))
